@@ -79,6 +79,7 @@ type Frame struct {
 	// loop bookkeeping
 	loops      map[*ssa.BasicBlock]*loopInfo
 	Returns    []retPoint
+	callClosure *Val // the closure value of the call whose contract is being applied (free variables visible to its clauses)
 	Panics     []retPoint
 	deferred   []deferRec
 	Closure    *Val
